@@ -101,6 +101,11 @@ class ForceBias(SingleDriver):
         forces : Forces
             The forces acting on the atoms.
         """
+        # in double precision whatever the calculator hands out: with single-precision
+        # forces gamma would be single precision too, `np.exp` overflows there long before
+        # `gamma_max_value` and the trial probability becomes nan
+        forces = np.asarray(forces, dtype=float)
+
         self.gamma = np.clip(
             (forces * self.delta) / (2 * self.temperature * kB),
             -self.gamma_max_value,
